@@ -133,8 +133,10 @@ pub fn cluster_properties() -> Vec<PropertyConfig> {
         },
         PropertyConfig {
             id: "C15",
-            profiles: &[Priority, Priority, Priority, General],
-            quick_runs: 36_000,
+            // (the cancel profile adds workers that have just refused a request; an inversion on
+            // such a worker needs about 1 run in 13 000)
+            profiles: &[Priority, Priority, Priority, General, Cancel],
+            quick_runs: 72_000,
             thorough_runs: 600_000,
             triggers: &["c15_rounds_with_dispatch_and_leftover"],
             rule: "priority profile (<=3 worker shapes, single-variant single-node classes, 2-4 priority levels, workers made partly busy by the preceding history); the statement is evaluated literally on every scheduling round whose ready queue is inside the property's domain (no multi-node / multi-variant request ready, <= 8 levels, solve reported optimal, no prefilled/retracting task); non-trivial = a round dispatched something and left something ready; violations are grouped by shape class w<#workers<=3>-c<#classes<=3>-het|hom-busy|idle",
